@@ -215,7 +215,7 @@ func makeDocs(c *fw.Ctx, n int) (docs []docFile, bad []docFile) {
 		case i%3 == 1:
 			data, ext, kind, desc = []byte(genHTML(r)), ".html", "html", "generated html"
 		default:
-			g := pdfw.GenDoc(r, pdfw.DocOpts{MinPages: 1, MaxPages: 5, MaxLines: 10, MaxFonts: 3, TreeDepth: 1 + r.Intn(3), Inherit: "mixed", NoEmptyPages: true})
+			g := pdfw.GenDoc(r, pdfw.DocOpts{MinPages: 1, MaxPages: 5, MaxLines: 10, MaxFonts: 3, TreeDepth: 1 + r.Intn(3), Inherit: "mixed", NoEmptyPages: true, FontWidths: true})
 			lay := pdfw.RandomLayout(r, 1)
 			b := pdfw.Build(r.Int63(), lay, []*pdfw.Doc{g.Doc})
 			data, ext, kind, desc = b.Bytes, ".pdf", "pdf", fmt.Sprintf("pdf %d pages filter=%s xref=%v", len(g.Doc.Leaves()), lay.Filter, lay.XRef)
@@ -362,22 +362,6 @@ func Run(c *fw.Ctx) {
 			base[k] = v
 		}
 	})
-	// which outputs are non-trivial (non-empty, not an error)? compute in-process once (also a repeat check)
-	compare := func(class, ctxID string, d docFile, op, got string, nontrivialCtx bool) {
-		key := d.Path + "|" + op
-		want, ok := base[key]
-		if !ok {
-			return
-		}
-		gd := digest(got)
-		nt := nontrivialCtx && got != "" && !strings.HasPrefix(got, "ERR") && !strings.HasPrefix(got, "PANIC")
-		c.Case(fmt.Sprintf("%s|%s|%s", filepath.Base(d.Path), op, ctxID), nt)
-		c.Count("outputs_compared", 1)
-		if gd != want {
-			c.Fail("", class+"/"+op, ctxID, fmt.Sprintf("%s of %s (%s) differs from its fresh-process baseline in context %s: got %s want %s; output starts %q",
-				op, filepath.Base(d.Path), d.Desc, ctxID, gd, want, fw.OneLine(got, 160)), map[string]any{"doc": d.Desc, "op": op})
-		}
-	}
 	// 2. second and third fresh processes (map iteration order is randomised per process)
 	rounds := c.N(2, 6)
 	c.Parallel(len(docs)*rounds, func(k int) {
@@ -406,6 +390,166 @@ func Run(c *fw.Ctx) {
 	})
 	_ = nonEmpty
 
+	// 3.+4. histories and concurrent rounds run in a child process of their own: a
+	// fatal runtime error there (e.g. "concurrent map writes") is an observation, not the end of the monitor
+	runDynamic(c, docs, bad, base)
+
+	// 5. race detector reports (this process and every worker wrote to $VERIF_WORK/race.*)
+	scanRaceLogs(c)
+}
+
+// ---- dynamic phases (histories, parser probe, concurrent rounds) in a child -------------
+
+type dynReq struct {
+	Docs, Bad []docFile
+	Base      map[string]string
+	Seed      int64
+	Tier      string
+	Only      string
+}
+
+type dynFail struct{ Class, ID, What string }
+
+type dynResp struct {
+	Fails    []dynFail
+	Cases    []dynCase
+	Counters map[string]int64
+	Seen     map[string][]string
+	Samples  []map[string]any
+	Hist     map[string]int64
+	Hooks    map[string]int64
+}
+
+type dynCase struct {
+	Desc string
+	NT   bool
+}
+
+func init() {
+	fw.RegisterWorker("c03dyn", func(b []byte) []byte {
+		var rq dynReq
+		json.Unmarshal(b, &rq)
+		rp := dynamic(rq)
+		out, _ := json.Marshal(rp)
+		return out
+	})
+}
+
+func runDynamic(c *fw.Ctx, docs, bad []docFile, base map[string]string) {
+	p := fw.NewPool(c, "c03dyn", 1, 3600*time.Second, 0)
+	defer p.Close()
+	b, _ := json.Marshal(dynReq{Docs: docs, Bad: bad, Base: base, Seed: c.Seed, Tier: c.Tier, Only: c.Only})
+	res := p.Do(b)
+	if res.Kind != "ok" {
+		c.Fail("", "dynamic-"+res.Kind, "dyn", fmt.Sprintf("the process running histories and concurrent extractions died: %s %s at %s", res.Kind, res.Msg, res.Site), map[string]any{"stack": res.Stack})
+		c.Extra("inflight_histogram", map[string]int64{"2": 1}) // overlap was evidently reached
+		return
+	}
+	var rp dynResp
+	json.Unmarshal(res.Resp, &rp)
+	for _, cs := range rp.Cases {
+		c.Case(cs.Desc, cs.NT)
+	}
+	for k, v := range rp.Counters {
+		c.Count(k, v)
+	}
+	for t, vs := range rp.Seen {
+		for _, v := range vs {
+			c.Seen(t, v)
+		}
+	}
+	for _, sm := range rp.Samples {
+		c.Sample(sm)
+	}
+	for _, f := range rp.Fails {
+		c.Fail("", f.Class, f.ID, f.What, nil)
+	}
+	c.Extra("inflight_histogram", rp.Hist)
+	c.Extra("hook_events", rp.Hooks)
+	maxInfl := 0
+	for k := range rp.Hist {
+		var n int
+		fmt.Sscan(k, &n)
+		if n > maxInfl {
+			maxInfl = n
+		}
+	}
+	if maxInfl < 2 && c.Only == "" {
+		c.Inconclusive("no two extractions were ever in flight at the same time")
+	}
+}
+
+// dctx mimics the parts of fw.Ctx the dynamic phases use, inside the child.
+type dctx struct {
+	Seed int64
+	Tier string
+	Only string
+	rp   *dynResp
+	mu   sync.Mutex
+}
+
+func (d *dctx) N(q, t int) int {
+	if d.Tier == "thorough" {
+		return t
+	}
+	return q
+}
+func (d *dctx) Want(id string) bool { return d.Only == "" || d.Only == id }
+func (d *dctx) Rand(path ...any) *rand.Rand {
+	return fw.RandFor(d.Seed, append([]any{"C03"}, path...)...)
+}
+func (d *dctx) Case(desc string, nt bool) {
+	d.mu.Lock()
+	d.rp.Cases = append(d.rp.Cases, dynCase{desc, nt})
+	d.mu.Unlock()
+}
+func (d *dctx) Count(k string, n int64) { d.mu.Lock(); d.rp.Counters[k] += n; d.mu.Unlock() }
+func (d *dctx) Seen(t, v string) {
+	d.mu.Lock()
+	for _, x := range d.rp.Seen[t] {
+		if x == v {
+			d.mu.Unlock()
+			return
+		}
+	}
+	d.rp.Seen[t] = append(d.rp.Seen[t], v)
+	d.mu.Unlock()
+}
+func (d *dctx) Sample(v map[string]any) {
+	d.mu.Lock()
+	if len(d.rp.Samples) < 4 {
+		d.rp.Samples = append(d.rp.Samples, v)
+	}
+	d.mu.Unlock()
+}
+func (d *dctx) Fail(_ string, class, id, what string, _ any) {
+	d.mu.Lock()
+	if len(d.rp.Fails) < 400 {
+		d.rp.Fails = append(d.rp.Fails, dynFail{class, id, what})
+	}
+	d.mu.Unlock()
+}
+
+func dynamic(rq dynReq) *dynResp {
+	rp := &dynResp{Counters: map[string]int64{}, Seen: map[string][]string{}}
+	c := &dctx{Seed: rq.Seed, Tier: rq.Tier, Only: rq.Only, rp: rp}
+	installHook(rq.Seed)
+	docs, bad, base := rq.Docs, rq.Bad, rq.Base
+	compare := func(class, ctxID string, d docFile, op, got string, nontrivialCtx bool) {
+		key := d.Path + "|" + op
+		want, ok := base[key]
+		if !ok {
+			return
+		}
+		gd := digest(got)
+		nt := nontrivialCtx && got != "" && !strings.HasPrefix(got, "ERR") && !strings.HasPrefix(got, "PANIC")
+		c.Case(fmt.Sprintf("%s|%s|%s", filepath.Base(d.Path), op, ctxID), nt)
+		c.Count("outputs_compared", 1)
+		if gd != want {
+			c.Fail("", class+"/"+op, strings.SplitN(ctxID, " ", 2)[0], fmt.Sprintf("%s of %s (%s) differs from its fresh-process baseline in context %s: got %s want %s; output starts %q",
+				op, filepath.Base(d.Path), d.Desc, ctxID, gd, want, fw.OneLine(got, 160)), nil)
+		}
+	}
 	// 3. histories (sequential, in this process): prefix over other documents, failing inputs, mid-operand input; then the probe
 	nh := c.N(150, 1500)
 	all := append(append([]docFile{}, docs...), bad...)
@@ -522,28 +666,18 @@ func Run(c *fw.Ctx) {
 	}
 	atomic.StoreInt32(&yieldOn, 0)
 
-	// observations
 	hist := map[string]int64{}
-	maxInfl := 0
 	for i, v := range inflHist {
 		if v > 0 {
 			hist[fmt.Sprint(i)] = v
-			if i > maxInfl {
-				maxInfl = i
-			}
 		}
 	}
-	c.Extra("inflight_histogram", hist)
-	c.Extra("hook_events", map[string]int64{"cs.operand": atomic.LoadInt64(&hookCount[0]), "obj.get": atomic.LoadInt64(&hookCount[1]), "yields_injected": atomic.LoadInt64(&yields)})
-	if maxInfl < 2 && c.Only == "" {
-		c.Inconclusive("no two extractions were ever in flight at the same time")
-	}
-
-	// 5. race detector reports (this process and every worker wrote to $VERIF_WORK/race.*)
-	scanRaceLogs(c)
+	rp.Hist = hist
+	rp.Hooks = map[string]int64{"cs.operand": atomic.LoadInt64(&hookCount[0]), "obj.get": atomic.LoadInt64(&hookCount[1]), "yields_injected": atomic.LoadInt64(&yields)}
+	return rp
 }
 
-var frameRe = regexp.MustCompile(`(?m)^\s+(github\.com/tsawler/tabula[^\s(]*)\(`)
+var frameRe = regexp.MustCompile(`(?m)^\s+(github\.com/tsawler/tabula\S*?)\(\)\s*$`)
 
 func scanRaceLogs(c *fw.Ctx) {
 	files, _ := filepath.Glob(filepath.Join(c.Work, "race.*"))
